@@ -86,8 +86,7 @@ def cbmc_cmd(ob, scratch, extra=()):
     if ob.checks == "none":
         cmd += ["--no-standard-checks"]
     elif ob.checks == "full":
-        cmd += ["--pointer-overflow-check", "--signed-overflow-check", "--undefined-shift-check",
-                "--conversion-check"]
+        cmd += ["--pointer-overflow-check", "--signed-overflow-check", "--undefined-shift-check"]
     elif ob.checks == "leak":
         cmd += ["--memory-leak-check"]
     elif ob.checks == "fullleak":
